@@ -61,6 +61,7 @@ class BuiltinMixin:
 
     def bi_len(self, args, kwargs, st, node):
         (v,) = args
+        v = self.unbox(v, st)
         t = v.t
         if isinstance(t, TOpt):
             self.partial(st, z3.Not(sym.opt_is_none(v)), "TypeError", node)
@@ -368,6 +369,7 @@ class BuiltinMixin:
     # ------------------------------------------------------------------
     # methods of builtin types
     def call_method_builtin(self, recv: SV, name, args, kwargs, st: State, node):
+        recv = self.unbox(recv, st)
         t = recv.t
         if isinstance(t, TOpt):
             self.partial(st, z3.Not(sym.opt_is_none(recv)), "AttributeError", node)
